@@ -115,6 +115,38 @@ def compile_via_replaced_file(text):
     return res
 
 
+def compile_bytes(data, route):
+    """raw bytes as a source file: ('code', str) / ('raised', exc) through compile_prolog_from_file, or ('exit', status,
+    output) through the command line"""
+    if not _DIR:
+        _DIR.append(tempfile.mkdtemp(prefix='c10file'))
+        import atexit, shutil
+        atexit.register(shutil.rmtree, _DIR[0], True)
+    path = os.path.join(_DIR[0], 'raw_%d.prolog' % os.getpid())
+    with open(path, 'wb') as f:
+        f.write(data)
+    if route == 'file':
+        from yldprolog import compiler
+        try:
+            with impl.quiet_stderr():
+                return ('code', compiler.compile_prolog_from_file(path, impl.Ctx))
+        except Exception as e:      # noqa
+            return ('raised', e)
+    from click.testing import CliRunner
+    out = path + '.out.py'
+    if os.path.exists(out):
+        os.remove(out)
+    if route == 'stdin':
+        r = CliRunner().invoke(impl.compiler.main, ['-', '-o', out], input=data)
+    else:
+        r = CliRunner().invoke(impl.compiler.main, [path, '-o', out])
+    written = ''
+    if os.path.exists(out):
+        with open(out, encoding='utf8', errors='replace') as f:
+            written = f.read()
+    return ('exit', r.exit_code, written)
+
+
 def compile_via_command_line(text, position):
     """the text as one of three sources of one command-line run (the others are the valid programs `cl_first.` and
     `cl_last.`): returns (exit status, text of the output file); None when the text cannot be stored as UTF-8"""
@@ -177,7 +209,7 @@ class C10(Prop):
             'lexer/parser error and reaches EOF (disagreement = harness error). One case in six also arrives as the new '
             'content of a file compiled before in the same process (then a valid program of the same size and '
             'modification time) through compile_prolog_from_file, one in six as one of three sources of a command-line '
-            'run (first, middle or last; exit status 0 for a text outside the grammar = violation). Non-trivial = text outside the grammar '
+            'run (first, middle or last; exit status 0 for a text outside the grammar = violation); one case in 24 is a valid program with one byte inserted that makes the file invalid UTF-8 (outside comments and quoted atoms), through compile_prolog_from_file, a command-line source or standard input. Non-trivial = text outside the grammar '
             '(must-reject case); distinct = SHA-1 of the text.')
     assumptions = ['CPython 3.12 of /venv', 'independent recogniser, cross-checked on every generated text against ANTLR\'s own verdict',
                    'a valid program may be refused by the compiler (C10 is one-sided)']
@@ -208,6 +240,19 @@ class C10(Prop):
         text = gen.program_text(clauses, src)
         if mode == 0:
             return {'text': text, 'edits': []}
+        if mode == 1 and src.n(3) == 0:
+            # a byte that makes the FILE invalid UTF-8, placed outside comments and quoted atoms (at the start of a token
+            # or inside a name): whatever it is meant to be, it is no character of the lexicon
+            try:
+                toks = [t for t in recog.lex(text, keep_skipped=True)]
+            except recog.LexError:
+                toks = []
+            cand = [t for t in toks if t[0] not in ('WS', 'COMMENT') and not t[1].startswith("'")]
+            if cand:
+                t = src.pick(cand)
+                off = t[2] + (src.n(len(t[1])) if src.n(2) else 0)
+                return {'text': text, 'edits': ['invalid-utf8-byte'], 'via': 'bytes', 'byte_at': [off, src.pick([0xff, 0xe9, 0xc3, 0x80, 0xa0, 0xfe])],
+                        'route': src.pick(['file', 'command-line', 'stdin'])}
         text, kinds = mutate_text(src, text)
         v = src.n(6)
         if v == 0:
@@ -217,9 +262,11 @@ class C10(Prop):
         return {'text': text, 'edits': kinds}
 
     def case_key(self, case):
-        return case['text']
+        return case['text'] + repr(case.get('byte_at') or '')
 
     def shrink_candidates(self, case):
+        if case.get('via') == 'bytes':
+            return          # the offset is tied to the text
         t = case['text']
         lines = t.split('\n')
         for i in range(len(lines)):
@@ -231,7 +278,28 @@ class C10(Prop):
             for i in range(0, n, size):
                 yield dict(case, text=t[:i] + t[i + size:])
 
+    def decide_bytes(self, case):
+        text = case['text']
+        off, b = case['byte_at']
+        if not recog.in_language(text):
+            return DISCARD('base text not in the language')
+        data = text[:off].encode('utf8') + bytes([b]) + text[off:].encode('utf8')
+        try:
+            data.decode('utf8')
+            return DISCARD('the byte happens to complete a valid sequence')
+        except UnicodeDecodeError:
+            pass
+        r = compile_bytes(data, case.get('route', 'file'))
+        accepted = (r[0] == 'code') or (r[0] == 'exit' and r[1] == 0)
+        if accepted:
+            code = r[1] if r[0] == 'code' else r[2]
+            return FAIL('accepted-a-file-that-is-not-utf8', {'text': text, 'invalid_byte': '0x%02x at offset %d' % (b, off), 'route': case.get('route'),
+                                                             'bytes_around': repr(data[max(0, off - 12):off + 12]), 'defs_in_output': defs_in(code) if isinstance(code, str) else None})
+        return OK(True, ['invalid-utf8-byte', 'route:' + case.get('route', 'file'), 'rejected'])
+
     def decide(self, case):
+        if case.get('via') == 'bytes':
+            return self.decide_bytes(case)
         text = case['text']
         try:
             inlang = recog.in_language(text)
